@@ -924,6 +924,13 @@ fn print_runtype(schema: &Runtype, named_schemas: &[NamedSchema], ctx: &mut Prin
                 vec![Json::String(c.clone()).to_expr()],
                 schema,
             ),
+            // a template without any part (``) matches the empty string only; an empty regular
+            // expression literal would be the comment marker //
+            _ if t.regex_expr().is_empty() => new_runtype_class(
+                "ConstRuntype",
+                vec![Json::String(String::new()).to_expr()],
+                schema,
+            ),
             _ => new_runtype_class(
                 "RegexRuntype",
                 vec![
